@@ -2,7 +2,7 @@
 import itertools
 from .family import Family
 
-PROPS_MODULES = ["C10"]
+PROPS_MODULES = ["C10", "LockShapes"]
 RULE = ("family `locks`: clones of one Frontend / Backend (backend->frontend proxy) / GpuBackend are driven from 2 (quick) or "
         "2-3 (thorough) threads against a scripted raw peer on a socketpair; a schedule controller registered through "
         "verif_hooks::set_controller parks each thread at the hold point between 'request written' and 'reply read' and "
